@@ -86,24 +86,8 @@ func (s *session) bigScript(b *bigData) {
 			s.r.Note("direct_oversize_observed", s.label+":"+res)
 		}
 		do("flip", "", "plain")
-		if s.label == "memory" {
-			do("under", "", "plain")
-			do("at", "", "frag")
-		} else {
-			// outside the tier's 16 MiB scope (memory, localdisk, diskpacked): observation only
-			of := b.offer("at")
-			_, err := s.b.S.ReceiveBlob(ctxbg, of.Ref, mkReader("plain", of.Data, 0, s.rng))
-			res := "accepted"
-			if err != nil {
-				res = "rejected: " + err.Error()
-				if len(res) > 160 {
-					res = res[:160]
-				}
-			} else {
-				s.stored[of.Ref] = of.Data
-			}
-			s.r.Note("direct_16MiB_valid_observed", s.label+": "+res)
-		}
+		do("under", "", "plain")
+		do("at", "", "frag")
 		return
 	}
 	if s.spec.Kind == "encrypt" {
